@@ -49,6 +49,18 @@ class Mask(Stub):
 
     __rmul__ = __mul__
 
+    # a boolean Series and its NumPy view are the same thing under the one-row abstraction
+    def to_numpy(self, *a, **k): return Mask(self.b)
+    def copy(self, *a, **k): return Mask(self.b)
+
+    @property
+    def values(self): return Mask(self.b)
+
+    # whole-series reductions ask about *some* / *every* row; the generic row decides (the rule varies it over every case)
+    def any(self, *a, **k): return self.b
+    def all(self, *a, **k): return self.b
+    def sum(self, *a, **k): return 1 if self.b else 0
+
     def __repr__(self):
         return f"Mask({self.b})"
 
